@@ -17,9 +17,12 @@ def main():
     ap.add_argument("--tier", default=os.environ.get("VERIF_TIER", "quick"), choices=["quick", "thorough"])
     ap.add_argument("--replay")
     ap.add_argument("--seed", type=int, default=None)
+    ap.add_argument("--survey", type=int, default=0)
     a = ap.parse_args()
     seed = a.seed if a.seed is not None else int(os.environ.get("VERIF_SEED", "0") or 0)
     pid = a.pid.upper()
+    if a.survey:
+        sys.exit(engine.survey(pid, a.tier, seed, a.survey))
     if a.replay:
         sys.exit(engine.replay(pid, a.replay))
     sys.exit(engine.run_check(pid, a.tier, seed))
